@@ -1,7 +1,10 @@
 """stubgen keeps `@functools.lru_cache`/`@functools.cache`; stubtest then compares the wrapper's (*args, **kwargs) call signature with the wrapped function's signature and reports a disagreement.
 
 Exit status 1 = defect present, 0 = absent, 2 = inconclusive (preconditions of the input failed).
-Mechanism keys: stubtest:parse-only:decorated-function:is inconsistent, runtime does not have **kwargs parameter "_", stubtest:semantic:decorated-function:is inconsistent, runtime does not have **kwargs parameter "_""""
+Mechanism keys:
+  stubtest:parse-only:decorated-function:is inconsistent, runtime does not have **kwargs parameter '_'
+  stubtest:semantic:decorated-function:is inconsistent, runtime does not have **kwargs parameter '_'
+"""
 import os
 import sys
 
@@ -10,7 +13,7 @@ from _c19repro import run
 
 FILES = '''import functools
 
-@functools.lru_cache(maxsize=None)
+@functools.lru_cache
 def cached(x: int, y: str = 'a') -> str:
     return y * x
 '''
